@@ -60,8 +60,8 @@ def envValue (fuel : Nat) (chain : List Mangler) (pfx : String) (fs : List FT) (
   | .ok tfs =>
     match mapM' (fun (f : FT) =>
       match tagGet f.1.tags "dialsenv" with
-      | none => Outcome.panic "empty dialsenv tag"
-      | some "" => Outcome.panic "empty dialsenv tag"
+      | none => Outcome.err "empty dialsenv tag"       -- an error since the repair of P05 (was: explicit panic)
+      | some "" => Outcome.err "empty dialsenv tag"
       | some name =>
         let full := if pfx == "" then name else pfx ++ "_" ++ name
         match lookup full with
